@@ -239,6 +239,10 @@ class R:
             if tgt["va"]:
                 if len(args) < need:
                     args += [IDS[i % len(IDS)] for i in range(need - len(args))]
+                if len(args) >= need + 2 and (it[1] // max(self.nm, 1)) % 2 == 0:
+                    # an empty first variadic argument followed by more: the variable argument is not empty (__VA_OPT__ expands)
+                    args[need] = ""
+                    self.tags.add("pp.variadic_empty_first")
                 if len(args) > need:
                     self.tags.add("pp.variadic_args")
             else:
